@@ -60,7 +60,7 @@ pub fn run_history(h: &History, w: &WCtx) -> Result<Report, Failure> {
 }
 
 pub fn digest_of<T: serde::Serialize>(c: &T) -> u64 {
-    crate::exec::fnv(serde_json::to_string(c).unwrap_or_default().as_bytes())
+    crate::runner::splitmix(crate::exec::fnv(serde_json::to_string(c).unwrap_or_default().as_bytes()))
 }
 
 /// candidates with parts of the op list removed (for parent-side minimisation of hangs)
